@@ -32,8 +32,8 @@ func VC03_AppendLayout() {
 	newVA := vsym.IteInt(v.certSize != 0, v.certVA, Lp)
 	newSize := v.certSize + dwLength + entryPad
 
-	want := append([]byte{}, img[:v.dd4]...)    // every byte before the directory entry
-	want = append(want, vLE32(newVA)...)         // the entry spans the table exactly
+	want := append([]byte{}, img[:v.dd4]...) // every byte before the directory entry
+	want = append(want, vLE32(newVA)...)     // the entry spans the table exactly
 	want = append(want, vLE32(newSize)...)
 	want = append(want, img[v.dd4+8:bodyEnd]...) // every byte after it, up to the old end of the body
 	want = append(want, make([]byte, Lp-L)...)   // zero padding to 8
